@@ -473,9 +473,9 @@ class RealEnc:
             self.need(q_sign(base, '>0'), 'real power of a non-positive base')
             self.axioms.append(z3.Implies(q_sign(base, '>0'), v > 0))
             # the anchor's values at small integer exponents (special-case paths n == 0, 1, 2, 3)
-            for k in range(0, 4):
-                self.axioms.append(z3.Implies(q_eq(expo, Q(z3.RealVal(k))),
-                                              q_eq(Q(v), q_pow(base, k) if k else Q(_ONE))))
+            for k in range(-2, 9):
+                val = Q(_ONE) if k == 0 else (q_pow(base, k) if k > 0 else q_recip(q_pow(base, -k)))
+                self.axioms.append(z3.Implies(q_eq(expo, Q(z3.RealVal(k))), q_eq(Q(v), val)))
         self.pows.append((base, expo, v))
         return Q(v)
 
